@@ -710,9 +710,13 @@ enum Alt {
     Lit(String),          // text written in the script (safe alphabet, backslash quotes)
     Single(String),       // 'text'
     Mixed(String, String), // "$N"$M
+    ExpErr,               // ${u?}: the expansion of this alternative fails
 }
 
 fn parse_alt(t: &str) -> Option<Alt> {
+    if t == "x" {
+        return Some(Alt::ExpErr);
+    }
     let (m, h) = t.split_at(1);
     Some(match m {
         "v" => Alt::Var(dec_str(h)?),
@@ -734,6 +738,7 @@ fn show_alt(a: &Alt) -> String {
         Alt::Lit(s) => format!("l{}", enc_str(s)),
         Alt::Single(s) => format!("s{}", enc_str(s)),
         Alt::Mixed(a, b) => format!("m{}_{}", enc_str(a), enc_str(b)),
+        Alt::ExpErr => "x".to_string(),
     }
 }
 
@@ -760,14 +765,17 @@ fn alt_pcs(a: &Alt) -> Vec<Pc> {
         Alt::Var(s) | Alt::Lit(s) => pcs_unquoted(s),
         Alt::Quoted(s) | Alt::Single(s) => s.chars().map(|c| (c, true)).collect(),
         Alt::Mixed(q, p) => q.chars().map(|c| (c, true)).chain(pcs_unquoted(p)).collect(),
+        Alt::ExpErr => vec![],
     }
 }
 
 /// Runs the `case` command; returns (observation, oracle).
-fn run_case_command(subj: &str, items: &[(char, char, Vec<Alt>)]) -> (String, String) {
+fn run_case_command(subj: Option<&str>, items: &[(char, char, Vec<Alt>)]) -> (String, String) {
+    let subj_err = subj.is_none();
+    let subj = subj.unwrap_or("");
     let mut params = vec![subj.to_string()];
     // entered with `$?` = 7 so that the status the command leaves is its own doing
-    let mut script = String::from("st 7\ncase $1 in ");
+    let mut script = String::from(if subj_err { "st 7\ncase ${u?} in " } else { "st 7\ncase $1 in " });
     for (k, (cont, body, alts)) in items.iter().enumerate() {
         script.push('(');
         for (j, a) in alts.iter().enumerate() {
@@ -791,6 +799,7 @@ fn run_case_command(subj: &str, items: &[(char, char, Vec<Alt>)]) -> (String, St
                     params.push(p.clone());
                     script.push_str(&format!("${{{}}}", params.len()));
                 }
+                Alt::ExpErr => script.push_str("${u?}"),
             }
         }
         script.push_str(&match body {
@@ -827,26 +836,47 @@ fn run_case_command(subj: &str, items: &[(char, char, Vec<Alt>)]) -> (String, St
     // oracle: the property's clause evaluated with the independent matcher — the first item one of whose
     // alternatives is a defined pattern denoting the subject runs; `;&` falls through, `;;&` goes on testing
     let s: Vec<char> = subj.chars().collect();
-    let item_hit = |alts: &Vec<Alt>| {
-        alts.iter().any(|a| match oracle_parse(&alt_pcs(a)) {
-            Some(toks) => gm(&toks, &s),
-            None => false,
-        })
+    // Some(hit) / None = an alternative whose expansion fails was reached (alternatives after a match are not
+    // expanded)
+    let item_hit = |alts: &Vec<Alt>| -> Option<bool> {
+        for a in alts {
+            if matches!(a, Alt::ExpErr) {
+                return None;
+            }
+            if let Some(toks) = oracle_parse(&alt_pcs(a)) {
+                if gm(&toks, &s) {
+                    return Some(true);
+                }
+            }
+        }
+        Some(false)
     };
     let mut want = vec![];
     let mut falling = false;
-    let mut status = 0;
-    for (k, (cont, body, alts)) in items.iter().enumerate() {
-        if falling || item_hit(alts) {
-            if *body != 'z' {
-                want.push((k + 1).to_string());
-            }
-            // an empty body resets the status to 0, `echo` leaves 0, `st 5` leaves 5
-            status = if *body == 's' { 5 } else { 0 };
-            match cont {
-                'f' => falling = true,
-                'c' => falling = false,
-                _ => break,
+    let mut status = "0";
+    if subj_err {
+        status = "?";
+    } else {
+        for (k, (cont, body, alts)) in items.iter().enumerate() {
+            let hit = if falling { Some(true) } else { item_hit(alts) };
+            match hit {
+                None => {
+                    status = "?";
+                    break;
+                }
+                Some(false) => {}
+                Some(true) => {
+                    if *body != 'z' {
+                        want.push((k + 1).to_string());
+                    }
+                    // an empty body resets the status to 0, `echo` leaves 0, `st 5` leaves 5
+                    status = if *body == 's' { "5" } else { "0" };
+                    match cont {
+                        'f' => falling = true,
+                        'c' => falling = false,
+                        _ => break,
+                    }
+                }
             }
         }
     }
@@ -908,6 +938,9 @@ fn rand_alt(r: &mut Rng, subj: &str) -> Alt {
             _ => rand_pattern(r, true),
         }
     };
+    if r.chance(1, 25) {
+        return Alt::ExpErr;
+    }
     match r.below(10) {
         0..=3 => Alt::Var(text(r)),
         4 => Alt::Quoted(if r.chance(1, 2) { subj.to_string() } else { text(r) }),
@@ -947,7 +980,8 @@ fn rand_case(r: &mut Rng) -> String {
         .iter()
         .map(|(c, b, alts)| format!("{}{}:{}", c, b, alts.iter().map(show_alt).collect::<Vec<_>>().join(",")))
         .collect();
-    format!("k {} {}", enc_str(&subj), toks.join(" "))
+    let subj_tok = if r.chance(1, 60) { "!".to_string() } else { enc_str(&subj) };
+    format!("k {} {}", subj_tok, toks.join(" "))
 }
 
 // ------------------------------------------------------------------------------------------
@@ -1203,13 +1237,14 @@ fn run_case(case: &str, memo: &mut Option<Compiled>) {
                     Some((cs.next()?, cs.next().unwrap_or('e'), alts?))
                 })
                 .collect();
-            let (Some(subj), Some(items)) = (dec_str(subj), parsed) else {
+            let subj_text = if *subj == "!" { Some(None) } else { dec_str(subj).map(Some) };
+            let (Some(subj), Some(items)) = (subj_text, parsed) else {
                 emit(case, "bad-case", "-");
                 return;
             };
             let mut oracle_out = String::from("-");
             let obs = guarded(|| {
-                let (obs, o) = run_case_command(&subj, &items);
+                let (obs, o) = run_case_command(subj.as_deref(), &items);
                 oracle_out = o;
                 obs
             });
